@@ -909,6 +909,9 @@ pub trait Runner: Sync + Send {
     fn describe(&self, b: &Budget, i: usize) -> String;
     /// C18: deserialize an arbitrary value into this type
     fn deserialize(&self, v: &lexpr::Value) -> DeOutcome;
+    /// C07: serde_lexpr::to_writer / to_writer_custom of inhabitant i into short-writing and
+    /// refusing sinks; returns (failures, runs)
+    fn writers(&self, b: &Budget, i: usize) -> (Vec<(String, String)>, u64);
 }
 
 pub struct R<T: Fam>(pub std::sync::OnceLock<Vec<T>>);
@@ -1054,6 +1057,51 @@ impl<T: Fam> Runner for R<T> {
             }
         }
         (fails, evals)
+    }
+    fn writers(&self, b: &Budget, i: usize) -> (Vec<(String, String)>, u64) {
+        use crate::engine::choice::UniformWriter;
+        let x = self.inh(b)[i].clone();
+        let mut fails: Vec<(String, String)> = Vec::new();
+        let mut runs = 0u64;
+        if x.has_nonfinite() {
+            return (fails, runs);
+        }
+        for elisp in [false, true] {
+            let opts = || if elisp { lexpr::print::Options::elisp() } else { lexpr::print::Options::default() };
+            let t = match crate::util::guard(|| if elisp { serde_lexpr::to_string_custom(&x, opts()) } else { serde_lexpr::to_string(&x) }) {
+                Ok(Ok(t)) => t.into_bytes(),
+                _ => continue, // C04 / C14 judge serialization failures
+            };
+            let mut scheds: Vec<(usize, Option<usize>, bool)> = vec![(1, None, false), (2, None, false), (3, None, false), (5, None, false), (usize::MAX, None, false)];
+            for off in 0..=t.len() {
+                for k in [1usize, usize::MAX] {
+                    scheds.push((k, Some(off), false));
+                    scheds.push((k, Some(off), true));
+                }
+            }
+            for (k, fail_at, zero) in scheds {
+                let mut w = UniformWriter { k, fail_at, fail_zero: zero, data: Vec::new(), refused: false };
+                runs += 1;
+                let r = crate::util::guard(std::panic::AssertUnwindSafe(|| if elisp { serde_lexpr::to_writer_custom(&mut w, &x, opts()) } else { serde_lexpr::to_writer(&mut w, &x) }));
+                let ctx = format!("{} sink=[k={} fail_at={:?} zero={}]", if elisp { "to_writer_custom(elisp)" } else { "to_writer" }, k as isize, fail_at, zero);
+                match r {
+                    Err(p) => fails.push(("panic".into(), format!("{}: {}", ctx, p))),
+                    Ok(res) => {
+                        let ok = res.is_ok();
+                        if !t.starts_with(&w.data) {
+                            fails.push(("sink-not-a-prefix".into(), format!("{}: sink holds {:?}, text is {:?}", ctx, crate::rv::show_bytes(&w.data), crate::rv::show_bytes(&t))));
+                        } else if ok && w.data != t {
+                            fails.push(("ok-but-truncated".into(), format!("{}: Ok but the sink holds {:?} instead of {:?}", ctx, crate::rv::show_bytes(&w.data), crate::rv::show_bytes(&t))));
+                        } else if w.refused && ok {
+                            fails.push(("error-swallowed".into(), format!("{}: the sink refused a write but the call returned Ok", ctx)));
+                        } else if !w.refused && !ok {
+                            fails.push(("spurious-error".into(), format!("{}: failed on a sink that never refused", ctx)));
+                        }
+                    }
+                }
+            }
+        }
+        (fails, runs)
     }
     fn deserialize(&self, v: &lexpr::Value) -> DeOutcome {
         match crate::util::guard(|| serde_lexpr::from_value::<T>(v)) {
